@@ -48,7 +48,11 @@ func (p Precompile) ClaimRewards(
 		return nil, fmt.Errorf(cmn.ErrDifferentOrigin, origin.String(), delegatorAddr.String())
 	}
 
-	validators := p.stakingKeeper.GetDelegatorValidators(ctx, delegatorAddr.Bytes(), maxRetrieve)
+	// The withdrawals run on a branch of the state that is written back only when it succeeds: a failing precompile call
+	// fails the calling EVM frame, not the transaction, so whatever a message had written before it failed would
+	// otherwise stay.
+	msgCtx, writeMsg := ctx.CacheContext()
+	validators := p.stakingKeeper.GetDelegatorValidators(msgCtx, delegatorAddr.Bytes(), maxRetrieve)
 	totalCoins := sdk.Coins{}
 	for _, validator := range validators {
 		// Convert the validator operator address into an ValAddress
@@ -58,13 +62,14 @@ func (p Precompile) ClaimRewards(
 		}
 
 		// Withdraw the rewards for each validator address
-		coins, err := p.distributionKeeper.WithdrawDelegationRewards(ctx, delegatorAddr.Bytes(), valAddr)
+		coins, err := p.distributionKeeper.WithdrawDelegationRewards(msgCtx, delegatorAddr.Bytes(), valAddr)
 		if err != nil {
 			return nil, err
 		}
 
 		totalCoins = totalCoins.Add(coins...)
 	}
+	writeMsg()
 
 	if err := p.EmitClaimRewardsEvent(ctx, stateDB, delegatorAddr, totalCoins); err != nil {
 		return nil, err
@@ -100,9 +105,14 @@ func (p Precompile) SetWithdrawAddress(
 	}
 
 	msgSrv := distributionkeeper.NewMsgServerImpl(p.distributionKeeper)
-	if _, err = msgSrv.SetWithdrawAddress(sdk.WrapSDKContext(ctx), msg); err != nil {
+	// The message runs on a branch of the state that is written back only when it succeeds: a failing precompile call
+	// fails the calling EVM frame, not the transaction, so whatever a message had written before it failed would
+	// otherwise stay.
+	msgCtx, writeMsg := ctx.CacheContext()
+	if _, err = msgSrv.SetWithdrawAddress(sdk.WrapSDKContext(msgCtx), msg); err != nil {
 		return nil, err
 	}
+	writeMsg()
 
 	if err = p.EmitSetWithdrawAddressEvent(ctx, stateDB, delegatorHexAddr, msg.WithdrawAddress); err != nil {
 		return nil, err
@@ -133,10 +143,15 @@ func (p Precompile) WithdrawDelegatorRewards(
 	}
 
 	msgSrv := distributionkeeper.NewMsgServerImpl(p.distributionKeeper)
-	res, err := msgSrv.WithdrawDelegatorReward(sdk.WrapSDKContext(ctx), msg)
+	// The message runs on a branch of the state that is written back only when it succeeds: a failing precompile call
+	// fails the calling EVM frame, not the transaction, so whatever a message had written before it failed would
+	// otherwise stay.
+	msgCtx, writeMsg := ctx.CacheContext()
+	res, err := msgSrv.WithdrawDelegatorReward(sdk.WrapSDKContext(msgCtx), msg)
 	if err != nil {
 		return nil, err
 	}
+	writeMsg()
 
 	if err = p.EmitWithdrawDelegatorRewardsEvent(ctx, stateDB, delegatorHexAddr, msg.ValidatorAddress, res.Amount); err != nil {
 		return nil, err
@@ -172,10 +187,15 @@ func (p Precompile) WithdrawValidatorCommission(
 	}
 
 	msgSrv := distributionkeeper.NewMsgServerImpl(p.distributionKeeper)
-	res, err := msgSrv.WithdrawValidatorCommission(sdk.WrapSDKContext(ctx), msg)
+	// The message runs on a branch of the state that is written back only when it succeeds: a failing precompile call
+	// fails the calling EVM frame, not the transaction, so whatever a message had written before it failed would
+	// otherwise stay.
+	msgCtx, writeMsg := ctx.CacheContext()
+	res, err := msgSrv.WithdrawValidatorCommission(sdk.WrapSDKContext(msgCtx), msg)
 	if err != nil {
 		return nil, err
 	}
+	writeMsg()
 
 	if err = p.EmitWithdrawValidatorCommissionEvent(ctx, stateDB, msg.ValidatorAddress, res.Amount); err != nil {
 		return nil, err
